@@ -238,7 +238,7 @@ fn main() {
             program_family(&mut rep, &viols, &machinery);
         }
         "C20" => {
-            rep.rule = "a case = (program, declaration order) accepted by the flat-graph builder; per case: (a) eliminate_extra_unions_tees, (b) ModuleBoundary insertion variants + merge_modules (first order only), (c) JSON round trip through the real dfir_rs Dfir::new; distinct = distinct (program, order)".into();
+            rep.rule = "a case = (program, declaration order) accepted by the flat-graph builder; per case: (a) eliminate_extra_unions_tees, (b) ModuleBoundary insertion variants + merge_modules (first declaration order only; not repeated for the loop families, boundaries carry no loop context), (c) JSON round trip through the real dfir_rs Dfir::new; distinct = distinct (program, order)".into();
             rep.explanation = "(a) flat graph before/after elimination: same operators/arguments/references, wiring equals own contraction of 1-in-1-out unions/tees; (b) boundaries inserted through insert_intermediate_node / insert_node+insert_edge (per-edge for every edge subset, two in a row, one shared boundary with indexed ports), after merge_modules the graph equals the boundary-free graph; (c) serde_json of the partitioned graph -> Dfir::new (serde_json::from_str + insert_node_op_insts_all) -> identical operators, arguments, operator-instance ports, edges/ports, subgraph membership, handoffs, delay marks, subgraph order, loops, references; re-serialization byte-identical; the JSON literal is the one embedded by as_code; stage-by-stage mirror == build_dfir_code.".into();
             rep.assume("module boundaries cannot be written in surface text without import files; they are inserted through the public DfirGraph API");
             program_family(&mut rep, &viols, &machinery);
